@@ -504,6 +504,11 @@ class Ops:
             fn = self.find_method(a.cls, "__lt__")
             if fn is not None and strict:
                 return self.truth(self.call_function(fn, [a, b], {}))
+        if isinstance(a, RefV) and strict:
+            # an opaque object: its ordering is whatever the contract's stub for Cls.__lt__ says
+            stub = self.stubs.get(f"{a.desc.cls}.__lt__")
+            if isinstance(stub, dsl.External):
+                return self.truth(self.call_external(stub, f"{a.desc.cls}.__lt__", [a, b], 0))
         raise Unsupported(f"ordering on {a!r} and {b!r}")
 
     def ite(self, cond: Any, a: V, b: V) -> V:
